@@ -85,7 +85,12 @@ def run(rep, tier, seed):
     if tier == "quick" and len(scripts) > 2000:
         scripts = rng.sample(scripts, 700)
     for _ in range(2000 if tier == "quick" else 12000):
-        scripts.append([rng.choice(nav) if rng.random() < 0.85 else "EDIT" for _ in range(rng.randint(3, 8))])
+        w = [rng.choice(nav) if rng.random() < 0.85 else "EDIT" for _ in range(rng.randint(3, 8))]
+        if rng.random() < 0.3:
+            # the text being typed is taken back (undo), erased (backspace) or killed BEFORE the first walk: what is left of
+            # it is what must come back when the user returns
+            w.insert(0, rng.choice(["UNDO", "BS", "KILL", "UNDO"]))
+        scripts.append(w)
     rng.shuffle(scripts)
     cases = []
     per_case = 12
@@ -109,6 +114,12 @@ def run(rep, tier, seed):
             for c in w:
                 if c == "EDIT":
                     sess.append(keys(b"ia\x1bl" if vicmd else b"q"))
+                elif c in ("UNDO", "BS", "KILL"):
+                    # the typed text taken back (undo), erased (backspace) or killed: what is left is what comes back later
+                    if vicmd:
+                        sess.append(keys({"UNDO": b"u", "BS": b"X", "KILL": b"0D"}[c]))
+                    else:
+                        sess.append(keys({"UNDO": b"\x1f", "BS": b"\x7f", "KILL": b"\x15"}[c]))
                 else:
                     if vicmd and c in ("up-line-or-history", "down-line-or-history") and rng.random() < 0.4:
                         sess.append(keys(str(rng.randint(2, 4)).encode()))
